@@ -3,7 +3,8 @@ from qe import *
 import k9
 
 CLAIMS = ("R1 no rewrite's validity condition is computed from an estimate: a value read from ColumnStatistics::{ndv_est, ndv_str, min_f64, max_f64} never reaches, untouched by arithmetic, an integer comparison against a run-time value inside the optimizer (cost models and profitability gates, which apply arithmetic or float casts, do not match by construction); "
-          "R2 (= C32.R1) PackedJoinKeys runs after the fix-point loop only, and the rule names used to partition the rule list agree with the rules' own name().")
+          "R2 (= C32.R1) PackedJoinKeys runs after the fix-point loop only, and the rule names used to partition the rule list agree with the rules' own name(); "
+          "R3 LIMIT/OFFSET is a barrier for predicate pushdown: in PredicatePushdown::pushdown the arm for LogicalPlan::Limit (and the VectorSearch node, a fused ORDER BY..LIMIT) does not hand the pending predicates to the recursion into its input - filtering below a LIMIT changes which rows survive it.")
 NOT_DECIDED = "answer-preservation of each rule's rewrite (a relation between plans, i.e. values)."
 
 CSTAT = "physical::operators::scan::ColumnStatistics"
@@ -99,7 +100,29 @@ def estimates_rule(F, R, rid):
     R.ok(rid, "estimate-readers-examined", dict(readers=readers, deciding=len(findings)))
 
 
+def limit_barrier(F, R, rid):
+    R.rule(rid, "K4 arm x K5 argument provenance", "pushdown(Limit.input, <pending predicates>) never happens: the recursion under a Limit starts with no predicates")
+    pp = "optimizer::rules::predicate_pushdown::PredicatePushdown::pushdown"
+    g = F.fn(pp)
+    ms = [m for m in g.raw["matches"] if m["kind"] == "match" and m["scrut"].endswith("LogicalPlan") and len(m["arms"]) >= 6]
+    if len(ms) != 1:
+        raise Broken(f"PredicatePushdown::pushdown: {len(ms)} plan dispatches")
+    n = 0
+    for v in ("Limit", "VectorSearch"):
+        arms = arm_for(ms[0], "LogicalPlan::" + v)
+        if not arms:
+            continue
+        rec = [c for c in calls_in_lines(g, arms[0]["span"]) if c.name == pp]
+        for k_, c in enumerate(sorted(rec, key=lambda c: (c.line, c.bb))):
+            n += 1
+            carried = derives_from(g, [c.args[2]], lambda k, x: (k == "place" and "|" not in x and place_local(x) == 3 and x) or None)
+            o = origin(g, c.args[2])
+            R.check(not carried and o[0] != "arg", rid, f"pushdown[{v}]:recursion#{k_}:starts-empty", f"the predicates collected above a {v.upper() if v == 'Limit' else v} node are pushed into its input: `SELECT .. FROM (SELECT .. ORDER BY x LIMIT 3) s WHERE p` then returns the first 3 rows that satisfy p instead of filtering the first 3 rows", g.loc(c.bb), dict(argument=str(o)[:80]))
+    R.floor(rid, "recursions under Limit / VectorSearch in PredicatePushdown", n, 1)
+
+
 def run(F, R):
     estimates_rule(F, R, "C03.R1")
+    limit_barrier(F, R, "C03.R3")
     import c32
     c32.rule_order(F, R, "C03.R2")
